@@ -22,6 +22,11 @@ CHECKS = {
     note="Claimed for the kernels in c11_kernels.txt (race query unsat on the unchanged tree without further Model invariants; three tree-level kernels carry the level invariant as a precondition). Kernels whose race-freedom depends on Model structure not encoded here (sensor/actuator address disjointness, island maps), tile kernels and flex are outside. Bounds: 2 threads, loops <= 2 iterations, dims <= 6; float rounding of reordered sums is excluded by the property.",
     technique="symbolic execution of two threads (AST -> z3) + SMT race query over all access pairs",
     ref="§4 C11"),
+  "C12": dict(
+    text="The real mujoco_warp.forward() is run natively on corpus models with the integration state concrete and every other Data cell that the call (re)computes holding a fresh symbolic 'stale' value (arbitrary leftovers of an arbitrary earlier history); every kernel launch is interpreted thread by thread, the constraint solver (outside the modelled subset) is executed by the real implementation under two different stale fills. For every result cell (assembled constraint rows < nefc, contacts < nacon, forces, accelerations, sensor data, ...) the solver decides whether two different stale contents can yield different values (substitution 2-safety query). sat models are replayed on two real Data objects with equal state and different stale contents.",
+    note="Bounds: the corpus models/variants listed in the evidence, nworld=1, capacities as created by put_data; sleep disabled (property). Cells the call never writes (poses of static geoms etc.) are constants of the Data object, not stale. The sticky overflow word is kept equal. Inside solver.solve only a two-fill differential run (not a solver verdict) shows independence — stated as a side condition in the evidence. One known finding (equality-row aref uses cvel/cdof_dot of the previous call). step()'s integrators and set_state copying are C08/C15.",
+    technique="symbolic execution of the real host pipeline with symbolic stale memory + SMT substitution (2-safety) queries",
+    ref="§4 C12"),
   "C13": dict(
     text="The real io.reset_data is run natively with every Data array and the reset mask symbolic (dense cells, nworld=2, tiny models incl. na>nu, mocap, weld equality, userdata, delay buffers, sleep); each launched kernel is interpreted thread by thread. Per field and world the solver decides: selected => equals a fresh make_data; unselected => unchanged; contacts of unselected worlds unchanged, none appear; sat models are replayed on the real reset_data.",
     note="Bounds: 2 worlds, 4 model/mask configurations, naconmax=4, njmax=4. Pre-state arbitrary except 0<=nacon<=naconmax and listed contacts' worldid in range. Sleep-derived arrays recomputed by update_sleep are excluded from 'unchanged'. Three known findings recorded (nacon zeroed, phantom contacts, history not reset). Subsequent-trajectory equality follows from C12 and is not re-derived here.",
@@ -39,6 +44,14 @@ NA_REASON = {
   "C35": "render is one 1100-line kernel of BVH traversal/texture sampling over Warp Mesh/BVH built-ins (C++), outside the modelled subset; its oracle (_ray_bvh) is itself not encodable",
   "C40": "flex collision/passive/constraint kernels are iterative, tile-based or large nonlinear kernels; the closed-form fraction does not decide the property",
 }
+
+# checks delivered with a meta file (checks/cNN.meta.json: text, note, technique, ref) and listed here as ready
+READY = ["C14", "C15"]
+for pid in READY:
+  mf = os.path.join(V, "checks", f"{pid.lower()}.meta.json")
+  if pid not in CHECKS and os.path.exists(mf):
+    d = json.load(open(mf))
+    CHECKS[pid] = dict(text=d["text"], note=d["note"], technique=d.get("technique", "symbolic execution of the real source + SMT queries"), ref=d.get("ref", f"§4 {pid}"))
 
 m = {
   "version": 1,
